@@ -321,6 +321,7 @@ class C20(Prop):
         # F. a local directory spelled like the URL, with a legacy sub-directory; other spellings of the location
         for scheme in schemes:
             yield mk(scheme, {}, shadow=True, base="%s://h.example/c" % scheme, accesses=["info", "images"])
+            yield mk(scheme, {"1.0": dict(full)}, shadow=True, base="%s://h.example/c" % scheme, accesses=["info", "images"], index_pages=["1.0/metadata", "1.0", "metadata"])
             yield mk(scheme, {"compose": dict(full)}, shadow=True, base="%s://h.example/c" % scheme, accesses=["info", "images"])
         # G. the real `_urlopen`: connection refused on the discard port (no network needed), a loop-back static server
         for base in ("http://127.0.0.1:9/P", "https://127.0.0.1:9/P", "ftp://127.0.0.1:9/P", "http://127.0.0.1:9/my compose", "http://127.0.0.1:9/P\u00e9"):
